@@ -421,7 +421,7 @@ pub fn make_inputs(cfg: &Cfg, rng: &mut Rng, tier: Tier, budget: usize, sentence
     out
 }
 
-const FLAVOURS: [&str; 5] = ["lazy counting struct", "Vec", "iter::from_fn", "lazy counting struct that is not fused (40 further tokens behind the None)", "endless lazy source with size hint (usize::MAX, None)"];
+const FLAVOURS: [&str; 6] = ["lazy counting struct", "Vec", "iter::from_fn", "lazy counting struct that is not fused (40 further tokens behind the None)", "endless lazy source with size hint (usize::MAX, None)", "lazy source that calls parse itself (re-entrant) half-way through"];
 
 #[derive(Debug, Clone, PartialEq, Eq)]
 enum Expect {
@@ -558,7 +558,7 @@ impl EmitRun {
             let ks = word.iter().map(|k| k.to_string()).collect::<Vec<_>>().join(" ");
             lines.push(format!("0 0 {ks}"));
             meta.push((i, 0, 0));
-            let mut fl = 1 + (i % 3);
+            let mut fl = [1usize, 2, 3, 5][i % 4];
             if i % 4 == 3 && matches!(lr::lr_parse(&r.ctx, &r.lr1, word, None), ParseOutcome::Reject(Some(_))) {
                 // must be rejected at one of its own tokens: the source may be endless behind them
                 fl = 4;
@@ -638,7 +638,12 @@ impl EmitRun {
                     }
                 }
             }
-            // observed event
+            // observed event (flavour 5 reports the nested call's result behind the outer one)
+            let (got_outer, got_nested): (String, Option<String>) = match got.split_once(" ||NESTED|| ") {
+                Some((a, b)) => (a.to_string(), Some(b.to_string())),
+                None => (got.clone(), None),
+            };
+            let got = &got_outer;
             let (kind, rest) = got.split_once(' ').unwrap_or((got.as_str(), ""));
             let (pulls_s, payload) = rest.split_once(' ').unwrap_or((rest, ""));
             let pulls: Option<usize> = pulls_s.parse().ok();
@@ -646,6 +651,17 @@ impl EmitRun {
                 "iterator_flavour": FLAVOURS[*flavour], "payload_scheme": scheme, "workload": wtag,
                 "expected": format!("{expect:?}"), "observed": crate::util::truncate(got, 2000)});
             let observed_ok = kind == "OK";
+            if let Some(nested) = &got_nested {
+                // same input, same payload scheme: the nested call must answer exactly like the outer one
+                // (which is compared with the reference below)
+                if kind != "PANIC" && nested != got {
+                    w.violation(
+                        "nested-parse-answers-differently",
+                        "parse called from inside the token source of another parse (same input) returned a different result",
+                        json!({"grammar_src": c.src, "token_kinds": word, "outer": crate::util::truncate(got, 800), "nested": crate::util::truncate(nested, 800)}),
+                    );
+                }
+            }
             match prop.as_str() {
                 "C01" => {
                     w.eval();
@@ -727,7 +743,7 @@ impl EmitRun {
                     }
                     w.eval();
                     w.count(&format!("workload:{wtag}"));
-                    w.count(&format!("iterator:{}", ["lazy-struct", "vec", "from_fn", "not-fused", "endless"][*flavour]));
+                    w.count(&format!("iterator:{}", ["lazy-struct", "vec", "from_fn", "not-fused", "endless", "re-entrant"][*flavour]));
                     match &expect {
                         Expect::ErrSome(i) => {
                             w.count("rejections:offending-token");
@@ -818,7 +834,7 @@ impl Engine for EmitRun {
         json!({"class": "generated-grammar", "grammar_src": c.src})
     }
     fn rule(&self, prop: &str) -> String {
-        let common = "grammars: the repository examples (structure only), the textbook corpus, combinator-built and random grammars, rendered with random fieldset styles / used-skipped masks and payload types from a pool of 12 (usize, String, user structs, Vec, Option, nested BTreeMap, unit, Option<Box<Vec>>, Vec<Option<Box<Rc>>>, pairs with equal argument lists under different callees); names: default, shuffled, confusable, emitter vocabulary, concatenation twins, the hostile pools of C05; each accepted grammar is compiled with rustc and run on: all strings up to a length bound (W1), random sentences (W2), a prefix-extension sweep p·t for every prefix p of short sentences and every terminal t (W3), 1-2 token edits (W4), long sentences up to 5000 tokens (W5, thorough); every input twice (lazy counting iterator + position payloads; Vec, iter::from_fn, a lazy iterator that is NOT fused - 40 tokens that are not part of the input follow the None -, or, for inputs rejected at one of their own tokens, an ENDLESS lazy source whose size hint is (usize::MAX, None) + pseudo-random payloads). One evaluation = one execution of the compiled parse()";
+        let common = "grammars: the repository examples (structure only), the textbook corpus, combinator-built and random grammars, rendered with random fieldset styles / used-skipped masks and payload types from a pool of 12 (usize, String, user structs, Vec, Option, nested BTreeMap, unit, Option<Box<Vec>>, Vec<Option<Box<Rc>>>, pairs with equal argument lists under different callees); names: default, shuffled, confusable, emitter vocabulary, concatenation twins, the hostile pools of C05; each accepted grammar is compiled with rustc and run on: all strings up to a length bound (W1), random sentences (W2), a prefix-extension sweep p·t for every prefix p of short sentences and every terminal t (W3), 1-2 token edits (W4), long sentences up to 5000 tokens (W5, thorough); every input twice (lazy counting iterator + position payloads; Vec, iter::from_fn, a lazy iterator that is NOT fused - 40 tokens that are not part of the input follow the None -, a RE-ENTRANT source that calls parse itself on the same input half-way through (both answers must agree), or, for inputs rejected at one of their own tokens, an ENDLESS lazy source whose size hint is (usize::MAX, None) + pseudo-random payloads). One evaluation = one execution of the compiled parse()";
         match prop {
             "C01" => format!("{common}; compared with membership decided by the canonical LR(1) reference parser, cross-checked by a definitional chart recogniser (<=40 tokens) and an Earley recogniser (<=120 tokens). Distinct non-trivial = distinct (grammar, token sequence) with >=2 productions and >=1 token."),
             "C02" => format!("{common}; for accepted inputs the {{:?}} rendering of the returned tree is compared with the rendering of the reference derivation (validated by a definitional derivation checker). Distinct non-trivial = distinct (grammar, sentence) whose tree has >=2 used leaves."),
